@@ -103,6 +103,22 @@ theorem update_wf (s : Ctx) (inp : Bytes) (hs : WF s) : WF (update s inp) := by
 
 theorem init_wf : WF init := by simp [WF, init]
 
+theorem update_init_count (m : Bytes) : (update init m).count = 8 * m.length := by
+  rw [update_spec init m (by simp [init])]; simp [init]
+
+/-- the buffered implementation computes the RFC 1321 style definition -/
+theorem md5_eq_spec (m : Bytes) : md5 m = spec m := by
+  unfold md5 final pad spec specPadded
+  have hb : (update init m).buf.length < 64 := update_buf_lt init m (by simp [init])
+  rw [update_update _ _ _ hb, update_update init m _ (by simp [init]), update_init_count]
+  rw [update_spec init _ (by simp [init])]
+  have hk : (if 64 - 8 * m.length / 8 % 64 < 1 + 8 then 64 - 8 * m.length / 8 % 64 + 64 else 64 - 8 * m.length / 8 % 64) - 8
+      = (if m.length % 64 < 56 then 56 - m.length % 64 else 120 - m.length % 64) := by
+    have : 8 * m.length / 8 = m.length := by omega
+    rw [this]
+    split <;> split <;> omega
+  simp only [hk, init, List.nil_append, List.append_assoc]
+
 end Xmp.Md5
 
 namespace Xmp.Container
